@@ -9,7 +9,7 @@
 //        rstat s0 s1 ..   cstat s0 s1 ..      (VarStatus codes 0 ON_UPPER 1 ON_LOWER 2 FIXED 3 ZERO 4 BASIC; how >= 2)
 //        state <0/1>  rat <0/1>  readnames <0/1>  bcfg <0/1>  load <0/1>   int/bool/real/seed (spx.hpp applyParams)
 // known-finding exclusion keys (--x known=k1,k2): bas-read-default-names, bas-write-unloaded-default-colname,
-//        state-cpx-ranged-row, state-mps-long-names
+//        state-cpx-ranged-row, state-mps-long-names, bas-write-stale-without-basis, bas-cpx-flag-ignored
 #include "spx.hpp"
 #include "gen_lp.hpp"
 #include <dirent.h>
@@ -30,14 +30,20 @@ static const char* stName(int s)
 }
 
 // --------------------------------------------------------------------------------------------- scratch files
-static const std::vector<const char*>& scratchFiles()
+// plain array: used by an atexit handler, so it must not have a destructor
+static const char* const SCRATCH_FILES[] = {"c14.bas", "c14_state.bas", "c14_state.set", "c14_state.mps", "c14_state.lp"};
+static std::vector<const char*> scratchFiles()
 {
-   static std::vector<const char*> f = {"c14.bas", "c14_state.bas", "c14_state.set", "c14_state.mps", "c14_state.lp"};
-   return f;
+   return std::vector<const char*>(SCRATCH_FILES, SCRATCH_FILES + 5);
+}
+static std::string& scratchDirStore()
+{
+   static std::string* d = new std::string();      // never destroyed: the atexit handler reads it
+   return *d;
 }
 static std::string scratchDir()
 {
-   static std::string d;
+   std::string& d = scratchDirStore();
    if(!d.empty()) return d;
    if(opts().mode == "replay" && opts().dir == ".")
    {
@@ -49,7 +55,7 @@ static std::string scratchDir()
             long pid = std::strtol(de->d_name, nullptr, 10);
             if(pid <= 0 || kill((pid_t) pid, 0) == 0) continue;
             std::string old = std::string("/var/tmp/h-c14-replay/") + de->d_name;
-            for(const char* f : scratchFiles()) unlink((old + "/" + f).c_str());
+            for(const char* f : SCRATCH_FILES) unlink((old + "/" + f).c_str());
             rmdir(old.c_str());
          }
          closedir(dh);
@@ -58,8 +64,8 @@ static std::string scratchDir()
       mkdir(d.c_str(), 0777);
       atexit([]()
       {
-         for(const char* f : scratchFiles()) unlink((scratchDir() + "/" + f).c_str());
-         rmdir(scratchDir().c_str());
+         for(const char* f : SCRATCH_FILES) unlink((scratchDirStore() + "/" + f).c_str());
+         rmdir(scratchDirStore().c_str());
          rmdir("/var/tmp/h-c14-replay");
       });
    }
@@ -268,8 +274,9 @@ static void genStatuses(Case& c)
 static void gen(Case& c)
 {
    GenOpt g;
-   g.maxM = g.maxN = (int) opts().xi("maxdim", 10);
+   g.maxM = g.maxN = (int) opts().xi("maxdim", opts().tier == "thorough" ? 14 : 10);
    g.scaleExp = P(30) ? R(1, 3) : 0;     // products of two factors keep <= 6 binary digits behind the point: exact in "%.15f"
+   g.presolveRich = P(30);               // more work for the simplifier: postsolved bases
    int cls = 1 + W({55, 15, 15, 15});
    LP& lp = c.lp;
    genPlantedLP(g, cls, lp, c.pl);
@@ -411,7 +418,7 @@ static SolveRes solveIt(SoPlex& sp)
 //      said otherwise; XU column basic + row nonbasic at upper, XL column basic + row nonbasic at lower, UL column nonbasic at
 //      upper, LL column nonbasic at lower; nonbasic columns without lower bound: at upper if finite, at zero if free
 static std::string checkBasFile(const std::string& path, const LP& lp, const Names& nm, const Basis& wb,
-                                const std::vector<char>& rvalid, const std::vector<char>& cvalid)
+                                const std::vector<char>& rvalid, const std::vector<char>& cvalid, bool cpx, bool cpxLenient = false)
 {
    int m = lp.m(), n = lp.n();
    std::ifstream is(path);
@@ -479,11 +486,42 @@ static std::string checkBasFile(const std::string& path, const LP& lp, const Nam
       if((st == S_BASIC) != (rrec[i] == 0))
          return st == S_BASIC ? "basis file makes a basic row nonbasic" : "basis file has no XU/XL record for a nonbasic row";
       bool ranged = isFin(lp.lhs[i]) && isFin(lp.rhs[i]) && lp.lhs[i] != lp.rhs[i];
-      if(st == S_BASIC || !ranged) continue;
-      if(st == S_UP && rrec[i] != 1) return "basis file pairs a ranged row that is nonbasic at its upper side with XL";
-      if(st == S_LO && rrec[i] != 2) return "basis file pairs a ranged row that is nonbasic at its lower side with XU";
+      bool equality = isFin(lp.lhs[i]) && lp.lhs[i] == lp.rhs[i];
+      if(st == S_BASIC || equality) continue;
+      if(ranged || !cpx)
+      {
+         // "XU: the row is nonbasic at its upper bound, XL: the row is nonbasic at its lower bound"
+         if(st == S_UP && rrec[i] != 1) return "basis file pairs a row that is nonbasic at its upper side with XL";
+         if(st == S_LO && rrec[i] != 2) return "basis file pairs a row that is nonbasic at its lower side with XU";
+      }
+      // CPLEX-compatible flag: XU only for ranged rows ("rowStatus == P_ON_UPPER && (!cpxFormat || type == RANGE)")
+      else if(rrec[i] != 2 && !cpxLenient) return "basis file in CPLEX-compatible format uses XU for a row that is not ranged";
    }
    return "";
+}
+
+// checkBasFile + the exclusion of the known finding "the format flag is not passed on to SPxBasisBase::writeBasis"
+static std::string checkBasFileK(const std::string& path, const LP& lp, const Names& nm, const Basis& wb,
+                                 const std::vector<char>& rvalid, const std::vector<char>& cvalid, bool cpx)
+{
+   if(opts().xi("nofilecheck", 0)) return "";      // sensitivity experiments: round trip only
+   std::string err = checkBasFile(path, lp, nm, wb, rvalid, cvalid, cpx);
+   if(err.find("CPLEX-compatible format uses XU") != std::string::npos && knownKey("bas-cpx-flag-ignored"))
+   {
+      ev().count("excluded_known.bas-cpx-flag-ignored");
+      err = checkBasFile(path, lp, nm, wb, rvalid, cvalid, cpx, true);
+   }
+   return err;
+}
+
+static int countBasRecords(const std::string& path)   // data lines (start with a blank) of a BAS file
+{
+   std::ifstream is(path);
+   std::string line;
+   int k = 0;
+   while(std::getline(is, line))
+      if(!line.empty() && line[0] == ' ' && line.find_first_not_of(" \t\r") != std::string::npos) k++;
+   return k;
 }
 
 static void countKinds(const Basis& b, const char* pfx)
@@ -747,8 +785,20 @@ static Verdict run(const Case& c)
       v.fail("writeBasisFile returned false (" + tag + ")");
       return v;
    }
+   if(!hb && countBasRecords(fileA) > 0)
    {
-      std::string err = checkBasFile(fileA, lp, nm, wb, rvalid, cvalid);
+      // hasBasis() is false and getBasis() reports the slack basis, but the file describes another basis ("do not write
+      // basis if there is none" in the branch for an LP held outside the solver)
+      if(knownKey("bas-write-stale-without-basis"))
+      {
+         e.count("excluded_known.bas-write-stale-without-basis");
+         return v;
+      }
+      v.fail("writeBasisFile wrote data records although hasBasis() is false (" + tag + ")");
+      return v;
+   }
+   {
+      std::string err = checkBasFileK(fileA, lp, nm, wb, rvalid, cvalid, cpx != 0);
       if(!err.empty())
       {
          v.fail(err + " (" + tag + ")");
@@ -801,7 +851,7 @@ static Verdict run(const Case& c)
    // ================================================================================================ stage B
    e.count(rat ? "stageB.variant.rational" : "stageB.variant.real");
    std::string prefix = scratchDir() + "/c14_state";
-   std::string fset = prefix + ".set", fbas = prefix + ".bas", flp = prefix + (cpx ? ".lp" : ".mps");
+   std::string fset = prefix + ".set", fbas = prefix + ".bas", flp;
    for(const char* f : scratchFiles()) if(strncmp(f, "c14_state", 9) == 0) unlink((scratchDir() + "/" + f).c_str());
    try
    {
@@ -813,7 +863,18 @@ static Verdict run(const Case& c)
       v.fail(std::string(rat ? "writeStateRational" : "writeStateReal") + " threw: " + x.what());
       return v;
    }
-   for(const std::string& f : {fset, fbas, flp})
+   // "write problem in MPS/LP format": <prefix>.lp with the CPLEX-compatible flag, <prefix>.mps without; which of the two
+   // formats holds the LP decides the documented normalisations below
+   bool haveLp = access((prefix + ".lp").c_str(), R_OK) == 0, haveMps = access((prefix + ".mps").c_str(), R_OK) == 0;
+   if(haveLp == haveMps || (haveLp && !cpx))
+   {
+      v.fail(std::string("state writer did not create exactly one LP file (.lp only with the CPLEX-compatible flag): ") + (haveLp ? ".lp " : "") + (haveMps ? ".mps" : ""));
+      return v;
+   }
+   bool lpFormat = haveLp;
+   flp = prefix + (lpFormat ? ".lp" : ".mps");
+   e.count(lpFormat ? "stageB.lpfile.lp" : "stageB.lpfile.mps");
+   for(const std::string& f : {fset, fbas})
       if(access(f.c_str(), R_OK) != 0)
       {
          v.fail("state writer did not create " + f.substr(f.rfind('.')));
@@ -822,7 +883,7 @@ static Verdict run(const Case& c)
    std::string tagB = "state, " + tag + (rat ? ", rational" : ", real");
    {
       // the .bas file of the state must describe the same basis as the one written by writeBasisFile
-      std::string err = checkBasFile(fbas, lp, nm, wb, rvalid, cvalid);
+      std::string err = checkBasFileK(fbas, lp, nm, wb, rvalid, cvalid, cpx != 0);
       if(!err.empty())
       {
          v.fail(err + " (" + tagB + ")");
@@ -853,17 +914,17 @@ static Verdict run(const Case& c)
       v.fail(std::string("readFile threw on the LP file of the state: ") + x.what());
       return v;
    }
-   bool longNames = longest > 8 && !cpx;
+   bool longNames = longest >= 8 && !lpFormat;
    if(!lok)
    {
-      if(longNames) v.fail("readFile rejected the MPS file of the state; names longer than 8 characters (" + tagB + ")");
+      if(longNames) v.fail("readFile rejected the MPS file of the state; names of 8 or more characters (" + tagB + ")");
       else v.fail("readFile rejected the LP file of the state (" + tagB + ")");
       return v;
    }
    // ---- LP == reference model, by name.  Documented normalisations: the objective offset is the parameter OBJ_OFFSET
    // (settings file), re-applied by _readFileReal; MPS: "XMPSWR03 Warning: objective function inverted when writing
    // maximization problem in MPS file format" (min -c x); LP format: "ranged row -> write two non-ranged rows" <name>_1 / _2.
-   bool flipped = !cpx && lp.sense == 1;
+   bool flipped = !lpFormat && lp.sense == 1;
    int nC = C.numCols(), mC = C.numRows();
    if(cn.num() != nC || rn.num() != mC)
    {
@@ -883,7 +944,7 @@ static Verdict run(const Case& c)
       int idx = cn.number(nm.col[j].c_str());
       if(idx < 0)
       {
-         v.fail(std::string("column missing after reading the LP file of the state") + (longNames ? "; names longer than 8 characters (" : " (") + tagB + ")");
+         v.fail(std::string("column missing after reading the LP file of the state") + (longNames ? "; names of 8 or more characters (" : " (") + tagB + ")");
          return v;
       }
       cmap[j] = idx;
@@ -910,7 +971,7 @@ static Verdict run(const Case& c)
    for(int i = 0; i < m; i++)
    {
       bool ranged = isFin(lp.lhs[i]) && isFin(lp.rhs[i]) && lp.lhs[i] != lp.rhs[i];
-      if(ranged && cpx)
+      if(ranged && lpFormat)
       {
          erows.push_back({nm.row[i] + "_1", i, 1, lp.lhs[i], QINF()});
          erows.push_back({nm.row[i] + "_2", i, 2, Q(-QINF()), lp.rhs[i]});
@@ -928,7 +989,7 @@ static Verdict run(const Case& c)
       int idx = rn.number(er.name.c_str());
       if(idx < 0)
       {
-         v.fail(std::string("row missing after reading the LP file of the state") + (longNames ? "; names longer than 8 characters (" : " (") + tagB + ")");
+         v.fail(std::string("row missing after reading the LP file of the state") + (longNames ? "; names of 8 or more characters (" : " (") + tagB + ")");
          return v;
       }
       if(er.part == 0) rmap[er.src] = idx;
@@ -1077,7 +1138,9 @@ static Verdict run(const Case& c)
    {
       Q zr = flipped ? Q(2 * lp.offset - r.obj) : r.obj;      // MPS of a maximisation: min -c x + offset
       if(o.sc == 0 || r.sc == 0) return 1;
-      bool agree = classCompatible(o.sc, r.sc) && (o.sc != 1 || r.sc != 1 || closeEnough(o.obj, zr));
+      // an LP that is primal and dual infeasible may be reported INFEASIBLE, UNBOUNDED or INForUNBD (depends on the start)
+      bool bothInfUnb = planted == CL_INFUNB && classMatchesPlanted(o.sc, planted) && classMatchesPlanted(r.sc, planted);
+      bool agree = (classCompatible(o.sc, r.sc) || bothInfUnb) && (o.sc != 1 || r.sc != 1 || closeEnough(o.obj, zr));
       bool restoredOk = classMatchesPlanted(r.sc, planted) && (r.sc != 1 || planted != CL_OPT || closeEnough(c.pl.z, zr));
       bool writerOk = classMatchesPlanted(o.sc, planted) && (o.sc != 1 || planted != CL_OPT || closeEnough(c.pl.z, o.obj));
       if(!agree) return (restoredOk && !writerOk) ? 4 : 2;
@@ -1085,9 +1148,11 @@ static Verdict run(const Case& c)
       return 0;
    };
    int jd = judge(ra, rc);
-   if(jd == 2 || jd == 5)
+   bool freeNonbasicRow = false;
+   for(int i = 0; i < m; i++) freeNonbasicRow = freeNonbasicRow || wb.r[i] == S_ZERO;
+   if(jd == 2)
    {
-      // LP, basis and parameters were just verified equal: a different answer is the solver's (C01/C02) unless it
+      // LP, basis and parameters were just verified equal: a different answer is the solver's (C01/C02/C04) unless it
       // persists in fresh objects without simplifier that start from the same files
       SoPlex A2, C2;
       quiet(A2);
@@ -1095,6 +1160,7 @@ static Verdict run(const Case& c)
       A2.setIntParam(SoPlex::SIMPLIFIER, SoPlex::SIMPLIFIER_OFF);
       C2.setIntParam(SoPlex::SIMPLIFIER, SoPlex::SIMPLIFIER_OFF);
       C2.setRealParam(SoPlex::OBJ_OFFSET, D(lp.offset));
+      if(rat) C2.setIntParam(SoPlex::READMODE, SoPlex::READMODE_RATIONAL), C2.setIntParam(SoPlex::SYNCMODE, SoPlex::SYNCMODE_AUTO);
       loadReal(A2, lp, 0);
       bool ok2 = false;
       {
@@ -1104,13 +1170,19 @@ static Verdict run(const Case& c)
       if(ok2)
       {
          SolveRes o2 = solveIt(A2), r2 = solveIt(C2);
-         if(!o2.threw && !r2.threw && judge(o2, r2) == 0)
+         int j2 = (o2.threw || r2.threw) ? 2 : judge(o2, r2);
+         if(j2 == 0 || j2 == 5)
          {
             e.count("stageB.solve.solver_disagreement_gone_in_fresh_objects(not C14)");
+            e.count(std::string("stageB.solve.disagreement.") + statusName(ra.st) + "/" + statusName(rc.st)
+                    + (ra.sc == 1 && rc.sc == 1 ? ".objective" : "") + "." + className(planted) + (freeNonbasicRow ? ".free_nonbasic_row" : ""));
+            if(getenv("VF_TRACE")) writeFile(opts().dir + "/disagree-" + std::to_string(fnv(caseText(c)) % 100000) + ".case", caseText(c));
+            if(getenv("VF_TRACE")) fprintf(stderr, "disagreement: writer %s %s restored %s %s planted %s %s\n", statusName(ra.st), ra.obj.get_str().c_str(), statusName(rc.st), rc.obj.get_str().c_str(), className(planted), c.pl.z.get_str().c_str());
             jd = 0;
          }
       }
    }
+   if(jd == 5) e.count(std::string("stageB.solve.both_off_planted.") + statusName(ra.st) + "." + className(planted) + (freeNonbasicRow ? ".free_nonbasic_row" : ""));
    switch(jd)
    {
    case 0: e.count("stageB.solve.agree"); break;
